@@ -666,7 +666,7 @@ class Lexer(object):
     # of white space and comments may separate the two (a line comment runs
     # up to the line terminator, it must not be cut short by backtracking)
     accessor_gap = (
-        r'(?:\s|/\*[^*]*\*+(?:[^/*][^*]*\*+)*/'
+        r'(?:[\s\uFEFF]|/\*[^*]*\*+(?:[^/*][^*]*\*+)*/'
         r'|//[^\r\n\u2028\u2029]*(?=[\r\n\u2028\u2029]))+'
     )
 
